@@ -74,6 +74,13 @@ class SpecEval:
         c = self.prog_const(n)
         if c is not None:
             return c
+        g = self.pkg + '.' + n
+        if g in self.prog.globals and self.st is not None:
+            ets = self.prog.globals[g]['elem']
+            hn, hs = self.vc.global_heap(g, ets)
+            v = V(self.st.get(hn, hs), hs, ets)
+            self.vc.range_assume(v)
+            return v
         self.err('unknown identifier %r' % n)
 
     def prog_const(self, n, pkg=None):
@@ -342,8 +349,12 @@ class SpecEval:
         return out
 
     def e_index(self, e):
-        b = self.eval(e[1])
-        i = self.eval(e[2])
+        b = self.nonpos(e[1])
+        i = self.nonpos(e[2])
+        # ground index terms of specifications are candidates for instantiating assumed universal clauses
+        if i.sort == 'Int' and not self.mentions_bound(i.term) and not i.term.lstrip('(- ').rstrip(')').isdigit():
+            if ('Int', i.term) not in self.vc.inst_terms:
+                self.vc.inst_terms.append(('Int', i.term))
         if b.sort == 'Slice':
             if self.st is None:
                 self.err('slice indexing in rec body')
